@@ -348,7 +348,7 @@ def r5_sorted_registration(P, rep, ctx):
         for meth in ("append", "insert", "extend"):
             for i, c, b in f.call_sites(f"__l.{meth}(___)"):
                 lst = f.x_at(i, c.func.value)
-                if "_VERSIONS[" not in lst:
+                if "_VERSIONS[" not in lst and "_VERSIONS.setdefault(" not in lst:
                     continue
                 n_app += 1
                 sorts = [j for j, c2, b2 in f.call_sites("__l.sort(___)") if f.x_at(j, c2.func.value) == lst]
@@ -382,23 +382,35 @@ def r5_sorted_registration(P, rep, ctx):
         x = vf_.xe_at(i_, r) if r is not None else None
         if x is not None and norm(x) in REG:
             continue
-        if isinstance(x, ast.ListComp) and len(x.generators) == 1:
-            gen = x.generators[0]
-            tv = norm(gen.target)
-            ok = ok and norm(x.elt) == tv and norm(gen.iter) in REG and [norm(c_) for c_ in gen.ifs] == [f"{tv}.supports({REQ})"]
-        else:
-            ok = False
+        lf = vf_.list_filter(r) if r is not None else None
+        if lf is None and x is not None:
+            lf = vf_.list_filter(x)
+        ok = ok and lf is not None and lf["src"] in REG and MM.equivalent(lf["kept"], f"{lf['var']}.supports({REQ})", fi.node)
     rep.check(ok, "C16.R5", fi.qual, "versions() filters the registered list order-preservingly with available.supports(requested)", fi.loc(), construct="versions() result",
               message="versions() does not return the registered versions in order, filtered by `<available>.supports(requested)`")
     fi = P.func(f"{PG}.resolve")
     rf_ = F(ctx, fi)
     VERS = f"self.versions({fi.params[1]}, {fi.params[2]})"
-    found = rf_.tests(VERS, f"len({VERS})")
-    picks = [(i_, rf_.x_at(i_, r)) for i_, r in rf_.returns() if r is not None and not (isinstance(r, ast.Constant) and r.value is None)]
-    okp = bool(picks) and all(t == f"{VERS}[-1]" for i_, t in picks) and bool(found) and all(rf_.hit_before(i_, edges=found) for i_, t in picks) and all(rf_.hit_before(rf_.g.exit, nodes=[i_ for i_, t in picks], src_edge=e) for e in found)
+    # path-sensitive: the newest element when the list is non-empty, None otherwise (statement or expression form)
+    try:
+        rpaths = rf_.value_paths()
+    except ValueError as e:
+        raise AnalysisError(f"C16.R5: resolve(): {e}")
+    picks = []
+    okp = bool(rpaths)
+    for lits, v, n_ in rpaths:
+        nonempty = [tv for k, tv in lits if k in (VERS, f"len({VERS})", f"bool({VERS})")]
+        t = norm(v)
+        picks.append(t)
+        if nonempty == [True]:
+            okp = okp and t == f"{VERS}[-1]"
+        elif nonempty == [False]:
+            okp = okp and t == "None"
+        else:
+            okp = False
     rep.check(okp, "C16.R5", fi.qual,
               "resolve() returns the last (newest) compatible version of versions()", fi.loc(), construct="resolve picks the last",
-              message=f"resolve() does not return the last element of versions(p_name, version): {[t for i_, t in picks]}")
+              message=f"resolve() does not return the last element of versions(p_name, version): {picks}")
     # resolve / versions consult only the registry (or state every registry writer also updates)
     writers = [fn for fn in P.functions.values() if isinstance(fn.node, (ast.FunctionDef, ast.AsyncFunctionDef)) and "_VERSIONS" in norm(fn.node) and any("_VERSIONS[" in F(ctx, fn).x_at(i, c.func.value) for m_ in ("append", "insert", "extend") for i, c, b in F(ctx, fn).call_sites(f"__l.{m_}(___)"))]
     for q, allowed in ((f"{PG}.resolve", {"versions"}), (f"{PG}.versions", {"_VERSIONS", "PluginRef"})):
